@@ -7,15 +7,22 @@ package c01
 import (
 	"context"
 	"fmt"
+	"io"
 	"sort"
 	"strings"
 	"testing"
 	"testing/synctest"
 
 	"github.com/ipfs/go-cid"
+	"github.com/ipld/go-ipld-prime"
 	cidlink "github.com/ipld/go-ipld-prime/linking/cid"
+	"github.com/ipld/go-ipld-prime/node/basicnode"
+	"github.com/ipld/go-ipld-prime/traversal"
+	"github.com/ipld/go-ipld-prime/traversal/selector"
+	selectorbuilder "github.com/ipld/go-ipld-prime/traversal/selector/builder"
 	"github.com/ipni/go-libipni/announce"
 	"github.com/ipni/go-libipni/dagsync"
+	"github.com/ipni/go-libipni/dagsync/ipnisync"
 	"github.com/libp2p/go-libp2p/core/peer"
 
 	"verifharness/fixture"
@@ -420,6 +427,143 @@ func check(t *testing.T, r *vp.Recorder, c cfg) {
 	r.Violation("ads:"+firstSig+":"+cls, key, fmt.Sprintf("config %s: %s", key, firstMsg), nil)
 }
 
+// checkDirectSyncer: the sync client used directly (ipnisync.NewSync,
+// NewSyncer, Syncer.Sync) with selectors made by the library's exported
+// selector constructors (DagsyncSelector, ExploreRecursiveWithStop,
+// ExploreRecursiveWithStopNode): for every ordered pair of recursion limits of
+// {none, depth 0, 1, 2, beyond the chain}, with and without a stop link, in
+// one process, a chain of 5 generic blocks is synced into an empty store with
+// the first and then, into another empty store, with the second selector. What
+// each sync reports is what a traversal of the publisher's own store reports
+// with a selector built here with the selector builder, not by the library.
+func checkDirectSyncer(t *testing.T, r *vp.Recorder) {
+	const L = 5
+	type lim struct {
+		name string
+		rl   selector.RecursionLimit
+	}
+	lims := []lim{{"none", selector.RecursionLimitNone()}, {"depth0", selector.RecursionLimitDepth(0)}, {"depth1", selector.RecursionLimitDepth(1)}, {"depth2", selector.RecursionLimitDepth(2)}, {"depth9", selector.RecursionLimitDepth(9)}}
+	ctors := []string{"DagsyncSelector", "ExploreRecursiveWithStop", "ExploreRecursiveWithStopNode"}
+	for _, ctor := range ctors {
+		for _, stop := range []int{-1, 1} {
+			for i1, l1 := range lims {
+				for i2, l2 := range lims {
+					key := fmt.Sprintf("direct-syncer|%s|stop%d|%s,%s", ctor, stop, l1.name, l2.name)
+					if !r.Mine(key) {
+						continue
+					}
+					r.Eval(key, i1 != i2)
+					var bad string
+					syncfx.Bubble(t, func(t *testing.T) {
+						for step, l := range []lim{l1, l2} {
+							w := syncfx.NewWorld()
+							id := fixture.Key("ed25519", 0)
+							p := w.AddPub(id, false)
+							ch := syncfx.BuildMapChain(p.Src, L, syncfx.DefaultProto, "c01-direct")
+							var stopLnk ipld.Link
+							if stop >= 0 {
+								stopLnk = cidlink.Link{Cid: ch.Cids[stop]}
+							}
+							np := basicnode.Prototype.Any
+							ssb := selectorbuilder.NewSelectorSpecBuilder(np)
+							var sel ipld.Node
+							switch ctor {
+							case "DagsyncSelector":
+								sel = dagsync.DagsyncSelector(l.rl, stopLnk)
+							case "ExploreRecursiveWithStop":
+								sel = dagsync.ExploreRecursiveWithStop(l.rl, ssb.ExploreAll(ssb.ExploreRecursiveEdge()), stopLnk)
+							default:
+								sel = dagsync.ExploreRecursiveWithStopNode(l.rl, nil, stopLnk)
+							}
+							// the reference: blocks loaded by a traversal of the
+							// publisher's store with a selector built here
+							var want []int
+							if stop < 0 {
+								own := ssb.ExploreRecursive(l.rl, ssb.ExploreAll(ssb.ExploreRecursiveEdge())).Node()
+								want = traverseOwn(p.Src, ch, own)
+							} else {
+								// with a stop link: head down to the block above the stop
+								// block, cut by the depth limit as in the reference
+								// without a stop
+								own := ssb.ExploreRecursive(l.rl, ssb.ExploreAll(ssb.ExploreRecursiveEdge())).Node()
+								for _, b := range traverseOwn(p.Src, ch, own) {
+									if b > stop {
+										want = append(want, b)
+									}
+								}
+							}
+							var got []int
+							lsys := w.Dst.LinkSystem()
+							sy := ipnisync.NewSync(lsys, func(_ peer.ID, c cid.Cid) { got = append(got, ch.Index(c)) })
+							syncer, err := sy.NewSyncer(p.AddrInfo())
+							if err != nil {
+								bad = "NewSyncer: " + err.Error()
+							} else {
+								ctx, cerr := ipnisync.CtxWithCidSchema(context.Background(), ipnisync.CidSchemaEntryChunk)
+								if cerr != nil {
+									panic(cerr)
+								}
+								if err := syncer.Sync(ctx, ch.Head(), sel); err != nil {
+									bad = fmt.Sprintf("sync %d (%s): %v", step+1, l.name, err)
+								} else if fmt.Sprint(got) != fmt.Sprint(want) {
+									bad = fmt.Sprintf("sync %d of the pair, selector from %s with limit %s and stop %d: the hook was handed blocks %v, a traversal with a selector built here loads %v", step+1, ctor, l.name, stop, got, want)
+								} else {
+									for _, b := range want {
+										if !w.Dst.Has(ch.Cids[b]) {
+											bad = fmt.Sprintf("sync %d: block %d reported but not stored", step+1, b)
+										}
+									}
+								}
+							}
+							sy.Close()
+							w.Close()
+							if bad != "" {
+								return
+							}
+						}
+					})
+					if bad != "" {
+						r.Violation("direct-syncer:blocks-differ-from-an-independent-traversal:"+ctor, key, bad, nil)
+						continue
+					}
+					r.Outcome("direct-syncer-ok")
+				}
+			}
+		}
+	}
+}
+
+// traverseOwn walks the chain in st from its head with sel and returns the
+// chain indices of the blocks loaded, in order.
+func traverseOwn(st *syncfx.Store, ch *syncfx.Chain, sel ipld.Node) []int {
+	lsys := st.LinkSystem()
+	var loaded []int
+	inner := lsys.StorageReadOpener
+	lsys.StorageReadOpener = func(lc ipld.LinkContext, l ipld.Link) (io.Reader, error) {
+		rd, err := inner(lc, l)
+		if err == nil {
+			loaded = append(loaded, ch.Index(l.(cidlink.Link).Cid))
+		}
+		return rd, err
+	}
+	csel, err := selector.CompileSelector(sel)
+	if err != nil {
+		panic(err)
+	}
+	head := cidlink.Link{Cid: ch.Head()}
+	root, err := lsys.Load(ipld.LinkContext{}, head, basicnode.Prototype.Any)
+	if err != nil {
+		panic(err)
+	}
+	prog := traversal.Progress{Cfg: &traversal.Config{LinkSystem: lsys, LinkTargetNodePrototypeChooser: func(ipld.Link, ipld.LinkContext) (ipld.NodePrototype, error) {
+		return basicnode.Prototype.Any, nil
+	}}}
+	if err := prog.WalkMatching(root, csel, func(traversal.Progress, ipld.Node) error { return nil }); err != nil {
+		panic(err)
+	}
+	return loaded
+}
+
 func firstLine(s string) string {
 	if i := strings.IndexByte(s, '\n'); i >= 0 {
 		return s[:i]
@@ -439,7 +583,7 @@ func depthValues(L int) []int64 {
 
 func TestCheck(t *testing.T) {
 	r := vp.New("C01", "model_checking",
-		"configurations: chain length L x entry point (queried head h, explicit head h, announce of h, for every h) x latest-sync state (none, every index, via SetLatestSync or WithLastKnownSync) x stop (none, every index, foreign CID) x resync x depth limits (subscriber, first-sync, per-call; each in {unset, -1, 1, L-1, L, L+1}, at most two set at once) x segment size (disabled, 1..L+1, subscriber-wide or per-call) x every subset of pre-stored blocks, factored as A(what) x B(depth) with two 'how' settings, A x C(how) with two depth settings; plus a boundary sweep on chains of 5-6 (quick) / 5-8 (thorough) ads: every segment size 1..L+1 x every depth limit 1..L+1 of each kind x stop {none, oldest, second-oldest} x entry point x {the harness's own hook, the library's MakeGeneralBlockHook} choosing the next segment; entries chains: M x start x {SyncEntries, SyncOneEntry, SyncHAMTEntries} x depth limits x segment size x pre-stored subsets; the all-links entry point also on a DAG with fan-out (2 spine blocks with 2 leaves each) x 5 segment sizes x all 64 pre-stored subsets; histories of real syncs on the subscriber (an older ad synced with an explicit head, the latest-synced value reached by a sync, the publisher's handler removed with RemoveHandler after that) before the observed sync; two entries syncs in a row on one subscriber, the first with a per-call depth limit, the second without or with another one. Every configuration runs the real subscriber and publisher and is compared with an integer reference model. states = distinct base configurations; transitions = hook calls + requests observed; traces = executions.",
+		"configurations: chain length L x entry point (queried head h, explicit head h, announce of h, for every h) x latest-sync state (none, every index, via SetLatestSync or WithLastKnownSync) x stop (none, every index, foreign CID) x resync x depth limits (subscriber, first-sync, per-call; each in {unset, -1, 1, L-1, L, L+1}, at most two set at once) x segment size (disabled, 1..L+1, subscriber-wide or per-call) x every subset of pre-stored blocks, factored as A(what) x B(depth) with two 'how' settings, A x C(how) with two depth settings; plus a boundary sweep on chains of 5-6 (quick) / 5-8 (thorough) ads: every segment size 1..L+1 x every depth limit 1..L+1 of each kind x stop {none, oldest, second-oldest} x entry point x {the harness's own hook, the library's MakeGeneralBlockHook} choosing the next segment; entries chains: M x start x {SyncEntries, SyncOneEntry, SyncHAMTEntries} x depth limits x segment size x pre-stored subsets; the all-links entry point also on a DAG with fan-out (2 spine blocks with 2 leaves each) x 5 segment sizes x all 64 pre-stored subsets; histories of real syncs on the subscriber (an older ad synced with an explicit head, the latest-synced value reached by a sync, the publisher's handler removed with RemoveHandler after that) before the observed sync; the sync client used directly (NewSync / NewSyncer / Syncer.Sync) with selectors from DagsyncSelector, ExploreRecursiveWithStop and ExploreRecursiveWithStopNode for every ordered pair of 5 recursion limits with and without a stop link, against a traversal with a selector built by the harness; two entries syncs in a row on one subscriber, the first with a per-call depth limit, the second without or with another one. Every configuration runs the real subscriber and publisher and is compared with an integer reference model. states = distinct base configurations; transitions = hook calls + requests observed; traces = executions.",
 		"reference model is the oracle (trusted; written from the statement)",
 		"two combinations whose depth limit the documentation leaves open (resync without stop on a known publisher with FirstSyncDepth set; explicit stop on a never-synced publisher with FirstSyncDepth set) are accepted under either reading",
 		"the block hook decodes each block and names its chain link as the next segment's CID, as the segmented-sync API requires",
@@ -560,6 +704,7 @@ func TestCheck(t *testing.T) {
 	checkEntries(t, r, maxL)
 	checkAllLinksTree(t, r, 2)
 	checkEntriesTwice(t, r, 4)
+	checkDirectSyncer(t, r)
 	t.Logf("violations: %d", r.Violations())
 }
 
